@@ -204,9 +204,12 @@ inductive Outcome where
 `create`: `manager.Create` fails before the new log exists (only matters when no writer is open).
 `wmSync`: the directory sync after the watermark rename fails (the rename stays undurable).
 `rotate`: closing the writer in `rotateAfterSynced` fails (the tail repair succeeds).
-`unlink k`: in `cleanupObsoleteWALs` the removal of the `k`-th obsolete log (0-based) fails. -/
+`unlink k`: in `cleanupObsoleteWALs` the removal of the `k`-th obsolete log (0-based) fails.
+`closeWriter`: (only in `Close`) `wal.close()` fails after the flush; the tail repair succeeds.
+`closeWriterNoRepair`: … and the tail repair fails too (the log keeps a torn EOF trailer). -/
 inductive Fault where
   | none | append | appendNoRepair | watermark | create | wmSync | rotate | unlink (k : Nat)
+  | closeWriter | closeWriterNoRepair
   deriving DecidableEq, Repr
 
 /-- `SetWALEntry` (nil / unsupported entries, which return an error, are not modelled). -/
@@ -383,7 +386,11 @@ def closeStore (s : Store) (d : Disk) (ft : Fault) : OpRes :=
     let dTrail := match r.st.writer with
       | some n => r.disk.setGarbage n true
       | none => r.disk
-    ⟨{ r.st with closed := true, writer := none }, r.disk, r.out,
+    -- wal.close(): closeAndRepairCurrent; errors.Join(flushErr, closeErr, …)
+    let closeFails := (ft = .closeWriter || ft = .closeWriterNoRepair) && r.st.writer.isSome
+    let out := if closeFails && r.out = .ok then .errCommitted else r.out
+    let dEnd := if ft = .closeWriterNoRepair && r.st.writer.isSome then dTrail else r.disk
+    ⟨{ r.st with closed := true, writer := none }, dEnd, out,
       r.bases ++ [(dTrail, r.out.committed), (r.disk, r.out.committed)], r.removed⟩
 
 /-- `recoverLatestWALTail`: the invalid tail of the latest log is cut off. -/
